@@ -32,7 +32,7 @@ def batches(tier, seed):
     for i in range(n // 4):
         want_clean = rng.random() < 0.8
         for _try in range(80):
-            c = [dsgcase.gen_cross, dsgcase.gen_fanin, dsgcase.gen_cycles, dsgcase.gen_layered][i % 4](rng)
+            c = [dsgcase.gen_cross, dsgcase.gen_fanin, dsgcase.gen_cycles, dsgcase.gen_layered, dsgcase.gen_shared_dag][i % 5](rng)
             inc = list(c.get('incompat', []))
             for _ in range(rng.choice([1, 1, 2])):
                 a, b = rng.sample(range(1, c['n']), 2)
